@@ -135,6 +135,30 @@ func loadCorpus(dir, view string) []string {
 	return lines
 }
 
+// ModelExecer is implemented by views whose model input differs from the symbolic line
+// (the real run's nondeterministic choices are appended).
+type ModelExecer interface {
+	ExecModel(line string) (out string, oracle string, tags []string, modelLine string)
+}
+
+// safeExecModel is safeExec that also yields the line to hand to the model.
+func safeExecModel(v View, line string) (out, oracle string, tags []string, modelLine string) {
+	me, ok := v.(ModelExecer)
+	if !ok {
+		o, w, t := safeExec(v, line)
+		return o, w, t, line
+	}
+	defer func() {
+		if r := recover(); r != nil {
+			out = fmt.Sprintf("PANIC %v", r)
+			oracle = fmt.Sprintf("the real code panicked: %v", r)
+			tags = []string{"panic"}
+			modelLine = line
+		}
+	}()
+	return me.ExecModel(line)
+}
+
 // safeExec runs v.Exec and turns a panic of the real code into an output.
 func safeExec(v View, line string) (out, oracle string, tags []string) {
 	defer func() {
@@ -176,10 +200,12 @@ func runView(v View, seed uint64, n int, driver, corpusDir string) *Report {
 	}
 	rep.Cases = len(lines)
 	goOuts := make([]string, len(lines))
+	modelLines := make([]string, len(lines))
 	seen := map[string]bool{}
 	for i, l := range lines {
-		out, oracle, tags := safeExec(v, l)
+		out, oracle, tags, ml := safeExecModel(v, l)
 		goOuts[i] = out
+		modelLines[i] = ml
 		if !seen[l] {
 			seen[l] = true
 			rep.Distinct++
@@ -199,7 +225,7 @@ func runView(v View, seed uint64, n int, driver, corpusDir string) *Report {
 	}
 	rep.Kinds = len(rep.Tags)
 	rep.Degenerate = n >= 200 && rep.Kinds < rep.MinKinds
-	modelOuts, err := runDriver(driver, lines)
+	modelOuts, err := runDriver(driver, modelLines)
 	if err != nil {
 		rep.DriverFailed = err.Error()
 	}
@@ -209,13 +235,13 @@ func runView(v View, seed uint64, n int, driver, corpusDir string) *Report {
 		}
 		if modelOuts[i] != goOuts[i] && len(rep.Mismatches) < 20 {
 			small := shrink(v, lines[i], func(c string) bool {
-				g, _, _ := safeExec(v, c)
-				m, err := runDriver(driver, []string{c})
+				g, _, _, ml := safeExecModel(v, c)
+				m, err := runDriver(driver, []string{ml})
 				return err == nil && len(m) == 1 && m[0] != g
 			})
-			g, o, tg := safeExec(v, small)
+			g, o, tg, ml := safeExecModel(v, small)
 			_, _, tg0 := safeExec(v, lines[i])
-			m, _ := runDriver(driver, []string{small})
+			m, _ := runDriver(driver, []string{ml})
 			mm := Mismatch{Line: small, Go: g, Oracle: o, Tags: append(tg, tg0...)}
 			if len(m) == 1 {
 				mm.Model = m[0]
